@@ -8,6 +8,7 @@ CONSTANTS
   Fanout = "locked"
   Slurp = "atomic"
   Now0 = 10
+  Batch = "alert"
   Scenario = "race"
 INVARIANTS InOrder QuiescentEnd
 CHECK_DEADLOCK FALSE
